@@ -148,8 +148,9 @@ structure Frac where
   den : Int
 deriving DecidableEq, Repr
 
-/-- `_derive_value_per_second`; `tLast`, `tNow` in microseconds; `none` also stands for the
-    ZeroDivisionError at `tNow = tLast` (outside the property's domain, reported by the driver) -/
+/-- `_derive_value_per_second`; `tLast`, `tNow` in microseconds.  NOT modelled: at `tNow = tLast`
+    the code raises ZeroDivisionError (here: a fraction with denominator 0); the property's domain has
+    positive elapsed time, the theorems assume it (`increasing`) and the harness never generates it -/
 def derive (isBytes : Bool) (tNow : Int) (cur : Val) (tLast : Int) (last : Val) : Option Frac :=
   match cur, last with
   | .int c, .int l =>
